@@ -289,7 +289,9 @@ def connDisconnect (c : Conn) : Conn :=
 
 /-- `_send_raw`: append; with SM enabled and no request outstanding, a non-SM element is followed
     by a linked `<r/>` -/
-def pushRaw (c : Conn) (it : Item) (owner : Owner) : Conn :=
+def pushRaw (c : Conn) (it : Item) (owner0 : Owner) : Conn :=
+  -- library elements queued before SM is enabled belong to the negotiation: never counted
+  let owner := if owner0 = .strophe && !c.sm.enabled then Owner.smStrophe else owner0
   let c1 := { c with queue := c.queue ++ [{ item := it, owner := owner, uid := c.nextUid }], nextUid := c.nextUid + 1 }
   if !owner.smBit && c1.sm.enabled && !c1.sm.rSent then
     -- send_raw(req_ack): refused unless CONNECTED
@@ -545,7 +547,7 @@ def handleFeaturesSasl (c : Conn) (st : XTree) : Conn :=
     | none => c1
   let c3 := if (st.childByNameNs (b "sm") Gen.nsSm).isSome
     then { c2 with sm := { c2.sm with support := true } } else c2
-  if !c3.smDisable && c3.sm.canResume && c3.sm.previd.isSome && c3.sm.boundJid.isSome then
+  if !c3.smDisable && c3.sm.support && c3.sm.canResume && c3.sm.previd.isSome && c3.sm.boundJid.isSome then
     let c4 := { c3 with sm := { c3.sm with bind := hasBind, resume := true } }
     let c5 := sendStanza c4 (.resume (c4.sm.previd.getD []) c4.sm.handledNr) .smStrophe
     addHandler c5 (.sys .sm) 0 (some Gen.nsSm) none none false
@@ -862,11 +864,12 @@ def handleStreamStanza (c : Conn) (st : XTree) : Conn :=
 def componentOpen (c : Conn) : Conn :=
   let c1 := resetTimed c
   let c2 := addHandler c1 (.sys .error) 0 (some Gen.nsStreams) (some (b "error")) none false
-  let c3 := addHandler c2 (.sys .componentHs) 0 none (some (b "handshake")) none false
-  let c4 := addTimed c3 .missingHandshake Gen.handshakeTimeout false
-  match c4.streamId with
-  | none => xmppDisconnect c4
-  | some _ => sendRawString c4 .handshake
+  match c2.streamId with
+  | none => xmppDisconnect c2
+  | some _ =>
+    let c3 := sendRawString c2 .handshake
+    let c4 := addHandler c3 (.sys .componentHs) 0 none (some (b "handshake")) none false
+    addTimed c4 .missingHandshake Gen.handshakeTimeout false
 
 /-- the stream-open handlers -/
 def runOpenHandler (c : Conn) : Conn :=
@@ -1041,7 +1044,7 @@ def runOnce (c : Conn) (rx : Rx) : Conn :=
 def connReset (c : Conn) : Conn :=
   if c.state ≠ .disconnected then c
   else systemDeleteAll
-    { c with compActive := false, queue := [], streamError := none, domain := none, boundJid := none, streamId := none, negotiated := false, secured := false, tlsFailed := false, error := 0, tlsSupport := false, bindRequired := false, sessionRequired := false }
+    { c with compActive := false, queue := [], streamError := none, domain := none, boundJid := none, streamId := none, negotiated := false, secured := false, tlsFailed := false, error := 0, tlsSupport := false, saslSupport := 0, compSupported := false, bindRequired := false, sessionRequired := false }
 
 /-- `xmpp_conn_set_flags`: returns the return code -/
 def setFlags (c : Conn) (f : Nat) : Conn × Int :=
@@ -1100,7 +1103,7 @@ def xmppSend (c : Conn) (it : Item) : Conn := sendStanza c it .user
 /-- `xmpp_send_raw_string` -/
 def xmppSendRawString (c : Conn) (it : Item) : Conn :=
   if isConnectedFor c .user then pushRaw c it .user else c
-/-- `xmpp_send_raw` -/
+/-- `xmpp_send_raw`: only the TCP state is checked, NOT the negotiation (known finding D13) -/
 def xmppSendRaw (c : Conn) (it : Item) : Conn := sendRaw c it .user
 
 /-- `xmpp_conn_release` (single reference): the part visible to the user -/
